@@ -726,6 +726,102 @@ def flow_entries():
                     lambda x: [(True, ok(vtuple(vint(2), vint(2), vint(3))))], tags=("flow",),
                     items="fn mk_arr(x: felt252, n: u8) -> Array<felt252> { let mut r = array![]; "
                           "let mut i: u8 = 0; while i != n { r.append(x); i += 1; }; r }\n"))
+    # language constructs that are desugared before lowering: `?`, struct update, ref parameters,
+    # while-let / for over arrays, loop-break values, let-else, if-let, tuple and bool-pair matches,
+    # nested options, nullable, early return from a loop, shadowing, snapshots of structs
+    def venum2(j, payload):
+        return ("enum", j, j, {j: payload}, None)
+    F = "felt252"
+    E.append(BEntry("flow_try_option", [("a", "Option<u8>"), ("b", "Option<u8>")], "Option<u8>",
+                    "add_opt(a, b)",
+                    lambda a, b: [(True, ok(none() if a[1] == 1 or b[1] == 1 else
+                                            some(vint((i_(a[3][0]) + i_(b[3][0])) % 256))))],
+                    tags=("flow",),
+                    items="fn add_opt(a: Option<u8>, b: Option<u8>) -> Option<u8> { let x = a?; "
+                          "let y = b?; Some(core::num::traits::WrappingAdd::wrapping_add(x, y)) }\n"
+                          "fn bump(ref s: Pt, d: felt252) { s.x += d; }\n"
+                          "#[inline(never)]\nfn bump_ni(ref s: Pt, d: felt252) { s.x += d; s.y = "
+                          "s.y * 2; }\n"))
+    E.append(BEntry("flow_try_result", [("a", "Result<u8, felt252>")], "Result<u16, felt252>",
+                    "let x = a?; Ok(x.into() + 1_u16)",
+                    lambda a: [(True, ok(venum2(0, vint(i_(a[3][0]) + 1)) if a[1] == 0
+                                         else venum2(1, a[3][1])))], tags=("flow",)))
+    E.append(BEntry("flow_struct_update", [("a", F), ("b", F)], "(felt252, felt252)",
+                    "let p = Pt { x: a, y: b }; let q = Pt { y: 5, ..p }; (q.x, q.y)",
+                    lambda a, b: [(True, ok(vtuple(a, vint(5))))], tags=("flow",)))
+    E.append(BEntry("flow_ref_param", [("a", F), ("b", F)], "(felt252, felt252)",
+                    "let mut p = Pt { x: a, y: b }; bump(ref p, 3); bump(ref p, b); (p.x, p.y)",
+                    lambda a, b: [(True, ok(vtuple(vint((i_(a) + 3 + i_(b)) % P), b)))],
+                    tags=("flow",)))
+    E.append(BEntry("flow_ref_param_noinline", [("a", F), ("b", F)], "(felt252, felt252)",
+                    "let mut p = Pt { x: a, y: b }; bump_ni(ref p, 3); bump_ni(ref p, b); (p.x, p.y)",
+                    lambda a, b: [(True, ok(vtuple(vint((i_(a) + 3 + i_(b)) % P),
+                                                   vint((4 * i_(b)) % P))))], tags=("flow",)))
+
+    def fold_arr(a, f, init):
+        acc = init
+        for x in a[1]:
+            acc = f(acc, i_(x))
+        return acc
+    E.append(BEntry("flow_while_let", [("a", "Array<felt252>")], F,
+                    "let mut a = a; let mut s = 100; while let Some(x) = a.pop_front() { "
+                    "s = s * 2 + x; } s",
+                    lambda a: [(True, ok(vint(fold_arr(a, lambda s_, x: (s_ * 2 + x) % P, 100))))],
+                    tags=("flow",)))
+    E.append(BEntry("flow_for_array", [("a", "Array<felt252>")], F,
+                    "let mut s = 1; for x in a { s = s * 3 + x; } s",
+                    lambda a: [(True, ok(vint(fold_arr(a, lambda s_, x: (s_ * 3 + x) % P, 1))))],
+                    tags=("flow",)))
+    E.append(BEntry("flow_loop_break_n", [("n", "u8")], F,
+                    "let mut i: u8 = 0; let r = loop { if i == n { break i.into() * 3; } "
+                    "if i == 4 { break 77; } i += 1; }; r",
+                    lambda n: [(i_(n) <= 4, ok(vint(3 * i_(n)))), (i_(n) > 4, ok(vint(77)))],
+                    tags=("flow",)))
+    E.append(BEntry("flow_let_else", [("o", "Option<felt252>"), ("d", F)], F,
+                    "let Some(x) = o else { return d; }; x + 1",
+                    lambda o, d: [(True, ok(vint((i_(o[3][0]) + 1) % P) if o[1] == 0 else d))],
+                    tags=("flow",)))
+    E.append(BEntry("flow_if_let", [("o", "Option<felt252>")], F,
+                    "if let Some(x) = o { x * 2 } else { 9 }",
+                    lambda o: [(True, ok(vint((i_(o[3][0]) * 2) % P) if o[1] == 0 else vint(9)))],
+                    tags=("flow",)))
+    E.append(BEntry("flow_tuple_lit_match", [("x", "u8"), ("y", "u8")], F,
+                    "match (x, y) { (_, 5) => 1, (3, _) => 2, _ => 3 }",
+                    lambda x, y: [(i_(y) == 5, ok(vint(1))),
+                                  (z3.And(i_(y) != 5, i_(x) == 3), ok(vint(2))),
+                                  (z3.And(i_(y) != 5, i_(x) != 3), ok(vint(3)))], tags=("flow",)))
+    E.append(BEntry("flow_bool_pair_match", [("c", "bool"), ("d", "bool")], F,
+                    "match (c, d) { (true, true) => 1, (true, false) => 2, (false, true) => 3, "
+                    "(false, false) => 4 }",
+                    lambda c, d: [(True, ok(vint(ite(c, ite(d, 1, 2), ite(d, 3, 4)))))],
+                    tags=("flow",)))
+    E.append(BEntry("flow_nested_option", [("o", "Option<Option<u8>>")], "u8",
+                    "match o { Some(Some(v)) => v, Some(None) => 200, None => 100 }",
+                    lambda o: [(True, ok(vint(100) if o[1] == 1 else
+                                         (o[3][0][3][0] if o[3][0][1] == 0 else vint(200))))],
+                    tags=("flow",)))
+    E.append(BEntry("flow_nullable", [("c", "bool"), ("x", F)], F,
+                    "let n: Nullable<felt252> = if c { NullableTrait::new(x) } else { "
+                    "Default::default() }; match core::nullable::match_nullable(n) { "
+                    "core::nullable::FromNullableResult::Null => 7, "
+                    "core::nullable::FromNullableResult::NotNull(b) => b.unbox() }",
+                    lambda c, x: [(True, ok(vint(ite(c, i_(x), 7))))], tags=("flow",)))
+    E.append(BEntry("flow_early_return_loop", [("x", F)], F,
+                    "let mut i: u8 = 0; while i != 3 { if i.into() == x { return 50 + x; } i += 1; } x",
+                    lambda x: [(z3.And(i_(x) >= 0, i_(x) <= 2), ok(vint(50 + i_(x)))),
+                               (z3.Or(i_(x) < 0, i_(x) > 2), ok(x))], tags=("flow",)))
+    E.append(BEntry("flow_shadow", [("x", F)], F,
+                    "let x = x + 1; let x = x * 2; { let x = x + 5; let _y = x; } x",
+                    lambda x: [(True, ok(vint(((i_(x) + 1) * 2) % P)))], tags=("flow",)))
+    E.append(BEntry("flow_array_tuple", [("a", F), ("b", F)], F,
+                    "let arr = array![(a, 1_u8), (b, 2_u8)]; let (v, k) = *arr.at(1); v + k.into()",
+                    lambda a, b: [(True, ok(vint((i_(b) + 2) % P)))], tags=("flow",)))
+    E.append(BEntry("flow_snapshot_struct", [("a", F), ("b", F)], F,
+                    "let p = Pt { x: a, y: b }; let s = @p; *s.x + *s.y + p.x",
+                    lambda a, b: [(True, ok(vint((2 * i_(a) + i_(b)) % P)))], tags=("flow",)))
+    E.append(BEntry("flow_span_slice", [("a", "Array<felt252>")], "usize",
+                    "let sp = a.span(); sp.slice(0, sp.len()).len()",
+                    lambda a: [(True, ok(vint(len(a[1]))))], tags=("flow",)))
     E.append(BEntry("flow_return_in_match", [("o", "Option<u8>"), ("d", "u8")], "u8",
                     "let v = match o { Some(v) => v, None => { return d; } }; if v == d { return 7; } "
                     "v",
